@@ -122,6 +122,7 @@ type Exec struct {
 	presSorts map[string]string
 	epochComps map[int]map[string]string
 	noStoreHit map[string]bool
+	clauseUsed map[string]int
 	ghostOn  bool
 }
 
@@ -133,7 +134,7 @@ type Hook interface {
 }
 
 func NewExec(p *Prog, opt *Options) *Exec {
-	e := &Exec{P: p, Opt: opt, strs: map[string]*Term{}, floats: map[string]*Term{}, declared: map[string]bool{}, anchorN: map[string]int{}, seenName: map[string]int{}, ghostFuncs: map[string]func(en *evalEnv, args []ev) ev{}, usedLoopKeys: map[string]bool{}, noStoreHit: map[string]bool{}}
+	e := &Exec{P: p, Opt: opt, strs: map[string]*Term{}, floats: map[string]*Term{}, declared: map[string]bool{}, anchorN: map[string]int{}, seenName: map[string]int{}, ghostFuncs: map[string]func(en *evalEnv, args []ev) ev{}, usedLoopKeys: map[string]bool{}, noStoreHit: map[string]bool{}, clauseUsed: map[string]int{}}
 	e.registerDigitGhosts()
 	return e
 }
@@ -207,7 +208,7 @@ func (e *Exec) oblige(st *State, kind, anchor string, goal *Term, pos string, as
 			}
 		}
 	} else if kind == "on-store" && e.curIn != nil && e.curFr != nil {
-		if n := e.P.staticOrdinal(e.curFr.fn, e.curIn, "store:"+strings.SplitN(strings.SplitN(anchor, ":", 2)[0], "=", 2)[0]); n > 1 {
+		if n := e.P.staticOrdinal(e.curFr.fn, e.curIn, "store:"+strings.SplitN(strings.SplitN(strings.SplitN(anchor, ":", 2)[0], "=", 2)[0], "#", 2)[0]); n > 1 && !strings.Contains(strings.SplitN(anchor, ":", 2)[0], "#") {
 			local += fmt.Sprintf("#%d", n)
 		}
 	} else {
@@ -273,10 +274,31 @@ var sentinel = &Term{S: "", Sort: ""}
 func (e *Exec) newEpoch(st *State) {
 	old := e.heapRead(st, "$alloc", SInt)
 	e.epochN++
+	keep := map[string]*Term{}
+	if e.Opt.Contracts != nil {
+		for _, ss := range e.Opt.Contracts.StableStructs {
+			pre := "F_" + sanitize(ss) + "_"
+			for k, t := range st.heap {
+				if strings.HasPrefix(k, pre) && t != nil && t.S != "" {
+					keep[k] = t
+				}
+			}
+			for comp, srt := range e.epochComps[st.epoch] {
+				if strings.HasPrefix(comp, pre) {
+					if _, ok := st.heap[comp]; !ok {
+						keep[comp] = &Term{fmt.Sprintf("%s!e%d", comp, st.epoch), srt}
+					}
+				}
+			}
+		}
+	}
 	for k := range st.heap {
 		if !strings.HasPrefix(k, "L") {
 			delete(st.heap, k)
 		}
+	}
+	for k, t := range keep {
+		st.heap[k] = t
 	}
 	st.epoch = e.epochN
 	na := e.fresh(SInt, "alloc")
